@@ -13,7 +13,7 @@ trap 'rm -rf "$scratch"' EXIT
 mkdir -p "$scratch/repo/simrt"
 cp /repo/*.go /repo/go.mod /repo/go.sum "$scratch/repo/" || exit 3
 cp -r /repo/headers /repo/internal "$scratch/repo/" || exit 3
-cp "$sim/simrt_src/simrt.go" "$scratch/repo/simrt/" || exit 3
+cp "$sim"/simrt_src/*.go "$sim"/simrt_src/*.s "$scratch/repo/simrt/" || exit 3
 ( cd "$sim" && $GO build -o "$scratch/simrewrite" ./cmd/simrewrite ) || exit 3
 "$scratch/simrewrite" github.com/tokenized/bitcoin_reader/simrt \
   "$scratch/repo/block_downloader.go" "$scratch/repo/block_manager.go" "$scratch/repo/tx_manager.go" "$scratch/repo/peers.go" "$scratch/repo/node_manager.go" > "$scratch/rewrite.log" 2>&1 || { cat "$scratch/rewrite.log"; exit 4; }
